@@ -63,7 +63,7 @@ def all_commands(alphabet, maxdigits):
 # Observation of one cycle = values of the decoder outputs after a clock edge:
 #     obs = (set_index_in, set_v_in, set_index_out, start_resp, clk_pulse, index_in, v_in, index_out)
 # Monitor state  m = (kind, n, main_seen, start_seen, clk_left)
-#     kind None  = no command outstanding (nothing may pulse)
+#     kind None  = no command outstanding (nothing may pulse);  for 'K' n is kept as 0 and clk_left counts down from n
 # A command becomes outstanding when its terminator is transferred (issue); everything that pulses
 # from then until the next terminator is transferred belongs to it.
 
@@ -72,6 +72,10 @@ M_K_DONE = ('K', 0, 0, 0, 0)
 _STROBE_KIND = ('I', 'V', 'O')          # obs[0], obs[1], obs[2]
 _STROBE_NAME = ('set_index_in', 'set_v_in', 'set_index_out')
 _DATA_NAME = ('index_in', 'v_in', 'index_out')
+
+
+def _cmd(kind, n):
+    return 'none' if kind is None else ('a K command' if kind == 'K' else '%s<%X>' % (kind, n))
 
 
 def mon_unsatisfied(m):
@@ -84,7 +88,7 @@ def mon_unsatisfied(m):
     if kind == 'O' and not start:
         return ('missing_pulse', 'no start_resp pulse for command O<%X>' % n)
     if kind == 'K' and left:
-        return ('clk_pulse_count', 'K<%X>: %d clk_pulse pulse(s) missing' % (n, left))
+        return ('clk_pulse_count', 'K command: %d clk_pulse pulse(s) still missing' % left)
     return None
 
 
@@ -93,7 +97,10 @@ def mon_issue(m, kind, n):
     err = mon_unsatisfied(m)
     if err:
         return m, err
-    return (kind, n, 0, 0, n if kind == 'K' else 0), None
+    if kind == 'K':
+        # only the number of pulses still due is kept, so that the count-downs of different K<n> share product states
+        return ('K', 0, 0, 0, n), None
+    return (kind, n, 0, 0, 0), None
 
 
 def mon_observe(m, prev, cur, widths):
@@ -105,7 +112,7 @@ def mon_observe(m, prev, cur, widths):
             rise = not prev[i]
             if kind != _STROBE_KIND[i] or (rise and main):
                 return m, ('extra_pulse', '%s pulses but the outstanding command is %s' % (
-                    _STROBE_NAME[i], 'none' if kind is None else ('%s<%X>%s' % (kind, n, ' (already pulsed)' if main else ''))))
+                    _STROBE_NAME[i], _cmd(kind, n) + (' (already pulsed)' if main else '')))
             if rise:
                 main = 1
             want = n & ((1 << widths[i]) - 1)
@@ -116,7 +123,7 @@ def mon_observe(m, prev, cur, widths):
         if not prev[3]:
             if kind != 'O' or start:
                 return m, ('extra_pulse', 'start_resp pulses but the outstanding command is %s' % (
-                    'none' if kind is None else '%s<%X>%s' % (kind, n, ' (already started)' if start else '')))
+                    _cmd(kind, n) + (' (already started)' if start else '')))
             if not main:
                 return m, ('order', 'start_resp pulses before set_index_out for O<%X>' % n)
             start = 1
@@ -125,7 +132,7 @@ def mon_observe(m, prev, cur, widths):
     if cur[4] and not prev[4]:
         if kind != 'K':
             return m, ('extra_pulse', 'clk_pulse pulses but the outstanding command is %s' % (
-                'none' if kind is None else '%s<%X>' % (kind, n)))
+                _cmd(kind, n)))
         if left == 0:
             return m, ('clk_pulse_count', 'more clk_pulse pulses than the K command asked for')
         left -= 1
